@@ -52,6 +52,8 @@ def _iter_pre(ctx):
 
 
 def _samples_of(wav):
+    if hasattr(wav, "frames") and len(wav.frames) > 40000:
+        return None
     if hasattr(wav, "frames"):
         return W.decode(bytes(wav.frames), wav.sampleWidth)
     return None
